@@ -1589,6 +1589,9 @@ callf:
 			if lerr := env.checkLimits(ctx); lerr != nil {
 				return lerr
 			}
+			// The reused frame starts the next turn like a fresh one: only the
+			// final body form of that turn is in tail position.
+			top.Terminal = false
 			fun, args = extractMarkTailRec(r)
 			goto callf
 		}
